@@ -133,6 +133,9 @@ pub enum Seed {
     None,
     Ones,
     Vals(Vec<f64>),
+    /// an (untracked) clone of the handle in this slot, e.g. `w.backward(Some(w.clone()))` to inject a
+    /// weight-decay term
+    FromSlot(Slot),
 }
 
 #[derive(Clone, Copy, Debug, Serialize, Deserialize, PartialEq)]
